@@ -40,7 +40,11 @@ METHODS = {FEX: ("dense", "sparse", "cusparse"), JAC: ("dense", "sparse", "cuspa
 
 def norm(stmt: str) -> str:
     s = re.sub(r"\s+", "", stmt.replace("__HOLE__", "H"))
-    s = re.sub(r"\[([a-z]\w?)\]", "[#]", s)
+    # one loop counter, whatever it is called (`i`, `idx`, `ispec`): all bare lower-case index identifiers of the statement must be
+    # the same name (`y[i]=abund[j]` is not the copy loop)
+    idx = set(re.findall(r"\[([a-z_][a-z0-9_]*)\]", s))
+    if len(idx) == 1:
+        s = re.sub(r"\[([a-z_][a-z0-9_]*)\]", "[#]", s)
     return s
 
 
